@@ -1,0 +1,128 @@
+//go:build verif
+
+// Contracts for package gsfa/manifest (comment-only; read by /verif/vcgo, build tag verif). Property C10 (the gsfa manifest
+// carries the identity - epoch, root CID - of a gsfa index) and C12/C13 safety on arbitrary file bytes.
+package manifest
+
+// withinLimits(m): the meta can be serialised ((*Meta).Bytes does not panic): at most 255 pairs, keys and values of at most 255 bytes
+//@ spec func withinLimits(m indexmeta.Meta) bool = len(m.KeyVals) <= 255 && (forall i int :: 0 <= i && i < len(m.KeyVals) ==> len(m.KeyVals[i].Key) <= 255) && (forall i int :: 0 <= i && i < len(m.KeyVals) ==> len(m.KeyVals[i].Value) <= 255)
+
+//@ func (*Header) Version
+//@   mode int
+//@   ensures result == h.version
+
+//@ func (*Header) Meta
+//@   mode int
+//@   ensures result == h.meta
+
+// readHeader on ARBITRARY file bytes: no panic (the only panic site, meta.Bytes(), is unreachable because a decoded meta has
+// a one-byte pair count and one-byte key/value lengths); version >= 2 files carry a meta, older ones an empty one.
+//@ func readHeader
+//@   mode int
+//@   requires file != nil
+//@   modifies consumed(file), written(file)
+//@   ensures result1 == nil ==> result0 != nil && fresh(result0) && result0.metaByteSize >= 0
+//@   ensures result1 == nil ==> withinLimits(result0.meta)
+//@   ensures result1 == nil && result0.version < 2 ==> len(result0.meta.KeyVals) == 0 && result0.metaByteSize == 0
+//@   ensures result1 != nil ==> result0 == nil
+
+// writeHeader panics (through (*Meta).Bytes) when the caller-supplied meta exceeds the limits: stated as a precondition.
+//@ func writeHeader
+//@   mode int
+//@   requires file != nil && withinLimits(meta)
+//@   modifies written(file), consumed(file)
+
+// NewManifest: a nil error comes with a manifest whose header exists and has the current version (older or newer versions
+// are rejected); a fresh file gets the caller's meta, an existing file keeps its own.
+//@ func NewManifest
+//@   mode int
+//@   requires withinLimits(meta)
+//@   ensures result1 == nil ==> result0 != nil && fresh(result0) && result0.header != nil && result0.file != nil
+//@   ensures result1 == nil ==> result0.header.version == _Version && withinLimits(result0.header.meta)
+//@   ensures result1 != nil ==> result0 == nil
+//@   noframe
+
+//@ func (*Manifest) getFileSize
+//@   mode int
+//@   requires m.file != nil
+//@   noframe
+
+//@ func (*Manifest) getContentLength
+//@   mode int
+//@   requires m.file != nil && m.header != nil
+//@   noframe
+
+//@ func (*Manifest) Meta
+//@   mode int
+//@   requires m.header != nil
+//@   ensures result == m.header.meta
+
+//@ func (*Manifest) Version
+//@   mode int
+//@   requires m.header != nil
+//@   ensures result == m.header.version
+
+//@ func (*Manifest) getContentReader
+//@   mode int
+//@   requires m.file != nil && m.header != nil
+//@   ensures result2 == nil ==> result0 != nil
+//@   noframe
+
+// readAllContent on ARBITRARY file bytes: no panic, no out-of-range access; every returned tuple is a pair of uint64.
+// (make([][2]uint64, 0, currentContentSize/16): the capacity is negative - a panic - when the file is shorter than its own
+// header says, i.e. currentContentSize < -15; see the report.)
+//@ func (*Manifest) readAllContent
+//@   mode int
+//@   requires m.file != nil && m.header != nil
+//@   noframe
+
+// ---- the remaining methods: lock discipline and the handle invariant (file and header present until close) ----
+
+//@ func (*Manifest) Close
+//@   requires held(m.mu) == 0 && m.file != nil
+//@   ensures held(m.mu) == 0
+//@   noframe
+
+//@ func (*Manifest) close
+//@   requires held(m.mu) == 0 && m.file != nil
+//@   ensures held(m.mu) == 0
+//@   noframe
+
+//@ func (*Manifest) Flush
+//@   requires held(m.mu) == 0 && m.file != nil
+//@   ensures held(m.mu) == 0
+//@   noframe
+
+//@ func (*Manifest) ContentSizeBytes
+//@   requires held(m.mu) == 0 && m.file != nil && m.header != nil
+//@   ensures held(m.mu) == 0
+//@   noframe
+
+//@ func (*Manifest) Put
+//@   requires held(m.mu) == 0 && m.file != nil
+//@   ensures held(m.mu) == 0
+//@   noframe
+
+//@ func (*Manifest) write
+//@   requires m.file != nil
+//@   noframe
+
+//@ func (*Manifest) ReadAll
+//@   requires held(m.mu) == 0 && m.file != nil && m.header != nil
+//@   ensures held(m.mu) == 0
+//@   noframe
+
+//@ func uint64ToBytes
+//@   mode bv
+//@   ensures len(result) == 8 && fresh(result)
+//@   ensures forall k int :: 0 <= k && k < 8 ==> result[k] == byte(i >> (8*uint(k)))
+
+//@ func (Values) First
+//@   mode int
+//@   ensures result1 == (len(v) > 0)
+//@   ensures result1 ==> result0 == v[0]
+
+//@ func (Values) Last
+//@   mode int
+//@   ensures result1 == (len(v) > 0)
+//@   ensures result1 ==> result0 == v[len(v)-1]
